@@ -399,3 +399,45 @@ def r6(cx):
                      "`%s` overwrites `keys[i]` of an internal node and can return without touching `key_overflows[i]`: the node is written with the new key's on-page "
                      "prefix and the OLD key's overflow chain -- after close + reopen lookups compare against a key nobody inserted and entries are not found" % b.id)
     cx.floor("separator replacements in internal nodes", n, 4)
+
+
+SHIFTS = {"insert", "remove", "split_off", "drain", "truncate", "swap_remove", "pop", "append", "retain", "clear"}
+PARALLEL = {"InternalNode": ("keys", ("key_overflows",)), "LeafNode": ("keys", ("values", "cell_overflows"))}
+
+
+@rule("C18", "C18.R7", "the per-slot vectors of a node are shifted together")
+def r7(cx):
+    """`keys[i]`, `values[i]` / `key_overflows[i]` / `cell_overflows[i]` describe one slot.  An operation that moves slots in
+    `keys` (insert / remove / split_off / pop / append ...) must move the same slots in every parallel vector in the same
+    function; writing the overflow pointer IN PLACE at the insertion index instead leaves every later key with its right
+    neighbour's overflow chain: the page image stores `key prefix + wrong tail`, and after a reopen lookups route wrongly
+    (or the open fails), while the overwritten chain leaks."""
+    f = cx.f
+    n = 0
+    for b in f.scan_bodies():
+        if not b.file.endswith("bplustree/tree.rs") or b.kind not in ("method", "fn") or "::tests::" in b.id:
+            continue
+        ops = {}
+        for c in b.calls:
+            if c.bb not in b.live or not c.args:
+                continue
+            k = c.primary.split("::")[-1]
+            if k not in SHIFTS or "Vec" not in c.primary:
+                continue
+            o = origin_of_operand(b, c.args[0], through_calls="all")
+            for own, fl in o.fields:
+                own = own.split("::")[-1].split("<")[0]
+                if own in PARALLEL and (fl == PARALLEL[own][0] or fl in PARALLEL[own][1]):
+                    ops.setdefault((own, fl), set()).add(k)
+        for own, (lead, others) in PARALLEL.items():
+            lk = ops.get((own, lead), set())
+            if not lk and not any(ops.get((own, o)) for o in others):
+                continue
+            for o in others:
+                n += 1
+                ok_ = ops.get((own, o), set())
+                cx.check(lk == ok_, "`%s`: `%s.%s` and `%s.%s` are shifted by the same operations" % (b.id, own, lead, own, o),
+                         "parallel-vector-shift|%s|%s.%s" % (b.name, own, o), b.where(),
+                         "`%s` moves the slots of `%s.%s` with {%s} but those of `%s.%s` with {%s}: from the touched index on, every slot is paired with its neighbour's "
+                         "%s" % (b.id, own, lead, ", ".join(sorted(lk)) or "-", own, o, ", ".join(sorted(ok_)) or "-", "overflow chain" if "overflow" in o else "value"))
+    cx.floor("(function, parallel vector) pairs with slot-moving operations", n, 18)
